@@ -595,5 +595,6 @@ pub fn run(opts: &Opts) -> Report {
     rep.sample(json!({"op": "find_text", "text": "a\u{e9}a b", "range": [1, 5], "needle": "a", "expected": [[2, 3]]}));
     rep.sample(json!({"op": "split_text", "text": "ab cd e", "range": [3, 7], "delimiter": " ", "expected": [[3, 5], [6, 7]]}));
     rep.sample(json!({"op": "find_text_regex", "text": "Hello wonderful world", "range": [6, 21], "pattern": "w[a-z]+"}));
+    crate::fam::textops_crafted::run_all(&mut rep);
     rep
 }
